@@ -14,6 +14,17 @@ SCOPES = {
                 "NetcodeClient::generate_payload_packet", "NetcodeClient::disconnect", "token::ConnectToken::read", "token::ConnectToken::generate"],
 }
 
+def analysis_key():
+    """hash of the engine code and tables: a cached fixpoint is reused only by the code that produced it"""
+    k = os.environ.get("VERIF_ANALYSIS_KEY")
+    if k: return k
+    import glob
+    root = os.path.dirname(os.path.dirname(os.path.abspath(__file__)))
+    h = hashlib.sha256()
+    for p in sorted(glob.glob(os.path.join(root, "sa", "absint*.py")) + glob.glob(os.path.join(root, "sa", "obl.py")) + glob.glob(os.path.join(root, "sa", "facts.py"))):
+        h.update(open(p, "rb").read())
+    return "e" + h.hexdigest()[:15]
+
 def kind_class(k):
     if k.startswith("overflow:"): return k
     return k.split(":")[0]
@@ -21,7 +32,7 @@ def kind_class(k):
 def run_scope(facts_dir, scope, rounds=8, use_cache=True):
     """fixpoint of one entry-point scope; result cached next to the facts (keyed by the analysis code), computed once under a file lock"""
     import fcntl
-    cache = os.path.join(facts_dir, f"obl_{scope}_{os.environ.get('VERIF_ANALYSIS_KEY', 'dev')}.json")
+    cache = os.path.join(facts_dir, f"obl_{scope}_{analysis_key()}.json")
     if use_cache and os.path.exists(cache): return json.load(open(cache))
     with open(os.path.join(facts_dir, f"obl_{scope}.lock"), "w") as lf:
         fcntl.flock(lf, fcntl.LOCK_EX)
